@@ -287,7 +287,81 @@ fn toggled_case(text: &str, lo: &mut Toggled, st: &mut Stats) -> Result<(), Fail
     Ok(())
 }
 
+/// Fixed layouts, erase and continue: quote(s), consonant, a sign (with traditional joining one key is two code points),
+/// 1-4 plain backspaces, one more key - compared after EVERY event.  What the engine remembers about the raw keys and
+/// what is left of the composed text part company here; the curling must follow the composed text.
+fn erase_and_continue_pairs(run: &Run) {
+    let inv = crate::driver::layout_inverse(Layout::Probhat);
+    let k = |v: &str| inv.get(v).copied();
+    let mut items: Vec<(usize, Vec<(u16, u8)>, usize)> = vec![];
+    for pi in [9usize, 11, 13, 15] {
+        for q in ["\"", "'", "(\""] {
+            for c1 in ["\u{0995}", "\u{09B0}"] {
+                for sg in ["\u{09C1}", "\u{09C2}", "\u{09BE}", "\u{09BF}"] {
+                    for n in 1usize..=4 {
+                        let mut ks: Vec<(u16, u8)> = vec![];
+                        let mut ok = true;
+                        for ch in q.chars() {
+                            match k(&ch.to_string()) {
+                                Some(x) => ks.push(x),
+                                None => ok = false,
+                            }
+                        }
+                        for v in [c1, sg] {
+                            match k(v) {
+                                Some(x) => ks.push(x),
+                                None => ok = false,
+                            }
+                        }
+                        if ok {
+                            items.push((pi, ks, n));
+                        }
+                    }
+                }
+            }
+        }
+    }
+    let next = k("\u{0995}").unwrap_or((0, 0));
+    run.exhaustive(
+        "fixed-layout-erase-and-continue-behind-a-quote",
+        &items,
+        |_| mk_local(),
+        |(pi, ks, n), st, lo| {
+            let pair = &lo.pairs[*pi];
+            let case = || json!({"erase_and_continue": {"pair": pi, "keys": ks, "backspaces": n}});
+            let pf = |p: crate::driver::PanicInfo| Failure::new(panic_kind(&p), p.to_string(), case());
+            pair.on.finish().map_err(pf)?;
+            pair.off.finish().map_err(pf)?;
+            let is_raw = |c: &str| c.is_ascii();
+            for (c, m) in ks {
+                let (a, b) = (pair.on.key(*c, *m, 0).map_err(pf)?, pair.off.key(*c, *m, 0).map_err(pf)?);
+                compare_with(&a, &b, true, &is_raw, &case)?;
+            }
+            for _ in 0..*n {
+                let (a, b) = (pair.on.backspace(false).map_err(pf)?, pair.off.backspace(false).map_err(pf)?);
+                if a.is_empty() || b.is_empty() {
+                    if a.is_empty() != b.is_empty() {
+                        return Err(Failure::new("variant-differs", format!("after a backspace: on={} off={}", a.short(), b.short()), case()));
+                    }
+                    break;
+                }
+                compare_with(&a, &b, true, &is_raw, &case)?;
+            }
+            let (a, b) = (pair.on.key(next.0, next.1, 0).map_err(pf)?, pair.off.key(next.0, next.1, 0).map_err(pf)?);
+            st.evals(1);
+            if compare_with(&a, &b, true, &is_raw, &case)? {
+                st.label("quote-adjacent-to-word-with-list");
+            }
+            pair.on.finish().map_err(pf)?;
+            pair.off.finish().map_err(pf)?;
+            st.label("erase-and-continue-pairs");
+            Ok(())
+        },
+    );
+}
+
 pub fn run(run: &Run) {
+    erase_and_continue_pairs(run);
     let lw: Vec<(&str, &str)> = vec![("\"", "\""), ("'", "'"), ("\"(", ")\""), ("", "\"."), ("'", ""), ("(\"", "\")"), ("", "")];
     let words: Vec<&str> = PHON_WORDS.iter().copied().filter(|w| w.chars().all(|c| c.is_ascii_alphabetic())).collect();
     let (lw2, words2) = (lw.clone(), words.clone());
